@@ -123,8 +123,15 @@ def _observe(case):
     tree, scene, scale = case["tree"], case["scene"], case["scale"]
     res = []
     try:
-        text = R.rule_text("r1", tree, scene["cutoff"], 1)
-        rule = R.parse_rule(text, PROFILES)[0]
+        text = R.rule_text("r1", tree, scene["cutoff"], 1, doubled=bool(case.get("doubled")))
+        try:
+            rule = R.parse_rule(text, PROFILES)[0]
+        except ValueError as err:
+            # (the parser asks for a requirement that is written without "not": spelled with double negations a rule
+            # may have none left - then the plain spelling is used)
+            if not case.get("doubled") or "positive requirement" not in str(err):
+                raise
+            rule = R.parse_rule(R.rule_text("r1", tree, scene["cutoff"], 1), PROFILES)[0]
         if scale == 1:
             rule.cutoff = scene["cutoff"]
         feats = R.features(scene, scale)
@@ -178,7 +185,7 @@ def _observe_many(cases):
 
 def _call_text(case):
     from ..rules import rule_text
-    return (f"rule = Parser({rule_text('r1', case['tree'], case['scene']['cutoff'], 1)!r}, set('abcde'), {{'cat'}}).rules[0]; "
+    return (f"rule = Parser({rule_text('r1', case['tree'], case['scene']['cutoff'], 1, doubled=bool(case.get('doubled')))!r}, set('abcde'), {{'cat'}}).rules[0]; "
             f"scale={case['scale']}; rule.detect(gene, rules.features(scene, scale), rules.hits(scene), "
             f"circular_origin={'L*scale' if case['scene']['circ'] else None}) for scene={case['scene']}")
 
@@ -239,7 +246,8 @@ def run(ctx):
         tree = _random_tree(rng, rng.randrange(1, 5))
         if not _has_positive(tree):
             continue
-        cases.append({"tree": tree, "scene": _random_scene(rng), "scale": rng.choice([1, 1000]), "sampled": True})
+        cases.append({"tree": tree, "scene": _random_scene(rng), "scale": rng.choice([1, 1000]), "sampled": True,
+                      "doubled": rng.random() < 0.15})     # the same conditions spelled with double negations
     for idx, case in enumerate(cases):
         case["id"] = idx
     samples = {}
@@ -247,7 +255,8 @@ def run(ctx):
     def describe(case, event):
         if _nontrivial(case):
             ctx.nontrivial_case(case["id"])
-        entry = {"op": "detect", "input": {"tree": case["tree"], "scene": case["scene"], "scale": case["scale"]},
+        entry = {"op": "detect", "input": {"tree": case["tree"], "scene": case["scene"], "scale": case["scale"],
+                                           "doubled": bool(case.get("doubled"))},
                  "call": _call_text(case), "observed": {"direct": event["res"], "through_apply_cluster_rules": event["pipe"]},
                  "features": _features(case), "sampled": case["sampled"]}
         if case["id"] in (0, enumerated // 2, len(cases) - 1):
